@@ -47,12 +47,14 @@ func c03PosForms() []xref.Expr {
 			out = append(out, xref.Bin{Op: op, L: pos, R: n(i)})
 		}
 		out = append(out, xref.Bin{Op: op, L: pos, R: last})
+		out = append(out, xref.Bin{Op: op, L: last, R: pos}) // the mirrored spelling: last() is evaluated first
 		out = append(out, xref.Bin{Op: op, L: n(2), R: pos})
 	}
 	out = append(out, last)
 	for _, i := range []int{0, 1, 2} {
 		out = append(out, xref.Bin{Op: "-", L: last, R: n(i)})
 		out = append(out, xref.Bin{Op: "=", L: pos, R: xref.Bin{Op: "-", L: last, R: n(i)}})
+		out = append(out, xref.Bin{Op: "=", L: xref.Bin{Op: "-", L: last, R: n(i)}, R: pos})
 	}
 	return out
 }
@@ -100,6 +102,14 @@ func c03Grid() []xref.Expr {
 						c03g = append(c03g, xref.Path{Abs: abs, Steps: steps2})
 					}
 				}
+			}
+		}
+	}
+	// a single descendant(-or-self) step from the context node, filtered by [n]: the n-th node of that step in document order
+	for n := 1; n <= 6; n++ {
+		for _, t := range tests[:3] {
+			for _, ax := range []string{"descendant", "descendant-or-self"} {
+				c03g = append(c03g, xref.Path{Steps: []*xref.Step{{Axis: ax, Test: t, Preds: []xref.Expr{xref.Num{Lex: fmt.Sprint(n)}}}}})
 			}
 		}
 	}
